@@ -1,6 +1,6 @@
 (* Refinement lemmas: the functions translated from the Python source text (Gen/Src.v) compute what
    the hand-written models compute.  Part 1: comm/utils.py, comm/bip32.py, ledger/version.py, ledger/pin.py. *)
-From PowHsm Require Import Gen.Src Model.CommProtocol Model.Bringup Model.Pin.
+From PowHsm Require Import Gen.Src Model.CommProtocol.
 From PowHsm Require Import Proofs.ValLemmas.
 
 (* ---------- comm/utils.py ---------- *)
@@ -219,79 +219,3 @@ Proof.
   destruct (Nat.eqb (length els) 5); reflexivity.
 Qed.
 
-(* ---------- ledger/version.py ---------- *)
-
-Definition ver_obj (v : N * N * N) : pv :=
-  let '(a, b, c) := v in
-  VObj "HSM2FirmwareVersion" [("patch", VInt (Z.of_N c)); ("minor", VInt (Z.of_N b)); ("major", VInt (Z.of_N a))].
-
-Lemma src_version_init_ok : forall a b c : N,
-  src_HSM2FirmwareVersion____init__ (VObj "HSM2FirmwareVersion" []) (VInt (Z.of_N a)) (VInt (Z.of_N b)) (VInt (Z.of_N c)) =
-  POk (ver_obj (a, b, c)).
-Proof. intros a b c. reflexivity. Qed.
-
-Lemma ver_major (a b c : N) : py_getattr (ver_obj (a, b, c)) "major" = POk (VInt (Z.of_N a)).
-Proof. reflexivity. Qed.
-Lemma ver_minor (a b c : N) : py_getattr (ver_obj (a, b, c)) "minor" = POk (VInt (Z.of_N b)).
-Proof. reflexivity. Qed.
-Lemma ver_patch (a b c : N) : py_getattr (ver_obj (a, b, c)) "patch" = POk (VInt (Z.of_N c)).
-Proof. reflexivity. Qed.
-
-Lemma src_version_supports_ok : forall mw fw : N * N * N,
-  src_HSM2FirmwareVersion__supports (ver_obj mw) (ver_obj fw) = POk (VBool (supports mw fw)).
-Proof.
-  intros [[M1 m1] p1] [[M2 m2] p2]. unfold src_HSM2FirmwareVersion__supports, supports.
-  rewrite !ver_major, !ver_minor, !ver_patch. cbn [pbind].
-  rewrite py_eq_int, !py_cmp_int, Zeqb_N, Zleb_N, Zltb_N, Zleb_N.
-  cbn [vbool pmap].
-  destruct (M1 =? M2); cbn [py_and py_truth andb]; [|reflexivity].
-  destruct (m2 <=? m1); cbn [py_and py_truth andb]; [|reflexivity].
-  destruct (m2 <? m1); cbn [py_or py_truth orb]; reflexivity.
-Qed.
-
-Lemma src_version_ge_ok : forall mw fw : N * N * N,
-  src_HSM2FirmwareVersion____ge__ (ver_obj mw) (ver_obj fw) = POk (VBool (supports mw fw)).
-Proof. intros mw fw. exact (src_version_supports_ok mw fw). Qed.
-
-Lemma src_version_eq_ok : forall a b : N * N * N,
-  src_HSM2FirmwareVersion____eq__ (ver_obj a) (ver_obj b) =
-  POk (VBool (let '(a1, a2, a3) := a in let '(b1, b2, b3) := b in (a1 =? b1) && (a2 =? b2) && (a3 =? b3))).
-Proof.
-  intros [[a1 a2] a3] [[b1 b2] b3]. unfold src_HSM2FirmwareVersion____eq__.
-  rewrite !ver_major, !ver_minor, !ver_patch. cbn [pbind].
-  rewrite !py_eq_int, !Zeqb_N. cbn [vbool pmap].
-  destruct (a1 =? b1); cbn [py_and py_truth andb]; [|reflexivity].
-  destruct (a2 =? b2); cbn [py_and py_truth andb]; reflexivity.
-Qed.
-
-(* ---------- ledger/pin.py ---------- *)
-
-Lemma src_pin_is_valid_ok : forall (cls : pv) (p : bytes) (any_pin : bool),
-  wf_bytes p ->
-  src_BasePin__is_valid cls (VBytes p) (VBool any_pin) = POk (VBool (pin_is_valid p any_pin)).
-Proof.
-  intros cls p any_pin Hwf. unfold src_BasePin__is_valid, pin_is_valid.
-  cbn [py_type pbind]. rewrite py_ne_type.
-  cbn [pty_eqb negb vbool pmap pif py_truth py_all_in py_any_in py_iter pbind py_len].
-  rewrite (py_all_map (fun b => VInt (Z.of_N b)) p _ (fun c => mem_N c PIN_POSSIBLE_CHARS)).
-  2:{ intros b Hb. rewrite py_chr_byte by (exact (proj1 (Forall_forall _ _) Hwf b Hb)).
-      cbn [pbind]. rewrite py_in_chr_str. reflexivity. }
-  rewrite (py_any_map (fun b => VInt (Z.of_N b)) p _ (fun c => mem_N c PIN_ALPHA_CHARS)).
-  2:{ intros b Hb. rewrite py_chr_byte by (exact (proj1 (Forall_forall _ _) Hwf b Hb)).
-      cbn [pbind]. rewrite py_in_chr_str. reflexivity. }
-  cbn [py_not pmap py_truth].
-  destruct (forallb (fun c => mem_N c PIN_POSSIBLE_CHARS) p); cbn [negb pif py_truth andb];
-    [|reflexivity].
-  destruct any_pin; cbn [orb]; [reflexivity|].
-  rewrite py_ne_int. unfold nlen. change 8%Z with (Z.of_N PIN_LENGTH). rewrite Zeqb_nat_N.
-  cbn [vbool pmap].
-  destruct (N.of_nat (length p) =? PIN_LENGTH); cbn [negb pif py_truth andb]; reflexivity.
-Qed.
-
-(* anything that is not a bytes object is not a valid PIN (None, str, int ...) *)
-Lemma src_pin_is_valid_not_bytes : forall (cls v : pv) (any_pin : pv),
-  py_type v <> TBytes -> src_BasePin__is_valid cls v any_pin = POk (VBool false).
-Proof.
-  intros cls v any_pin H. unfold src_BasePin__is_valid.
-  cbn [pbind]. rewrite py_ne_type, (pty_eqb_neq _ _ H). reflexivity.
-Qed.
